@@ -397,7 +397,7 @@ func (fx *FnExec) applyContract(st *State, in *ssa.Call, fn *ssa.Function, fc *F
 	}
 	for _, c := range fc.Ensures {
 		if f, ok := trc(post, c); ok {
-			if c.Trusted {
+			if c.Trusted || fc.Trusted {
 				eng.assumptions["TRUSTED postcondition "+c.Func+"/"+c.Name+": assumed by callers, not proved from the body (see the bounded check of that function)"] = true
 			}
 			st.assume(f)
